@@ -1,22 +1,29 @@
 package scratch
 
 import (
+	"context"
 	"fmt"
+	"io"
 	"strings"
 	"testing"
+	"time"
 
-	"github.com/bufbuild/protocompile/parser"
-	"github.com/bufbuild/protocompile/reporter"
+	"github.com/bufbuild/protocompile"
 )
 
+type panicCloser struct{ io.Reader }
+
+func (panicCloser) Close() error { panic("close panics") }
+
 func TestS(t *testing.T) {
-	text := "syntax = \"proto3\";\n/*\t\t\t€*/ message /*\t\t\t€*/\tM { string s = 1 [json_name = \"xxx€\"]; } // \t\t\t€\n\t\t\t€ enum E { Z = 0; }\n"
-	n := 0
-	root, err := parser.Parse("a.proto", strings.NewReader(text), reporter.NewHandler(reporter.NewReporter(func(e reporter.ErrorWithPos) error { n++; fmt.Println(e); return nil }, nil)))
-	fmt.Println(root != nil, err, n)
-	seq := root.Items()
-	for it, ok := seq.First(); ok; it, ok = seq.Next(it) {
-		info := root.ItemInfo(it)
-		fmt.Printf("%q %v\n", info.RawText(), info.Start())
-	}
+	res := protocompile.ResolverFunc(func(path string) (protocompile.SearchResult, error) {
+		if path == "a.proto" {
+			return protocompile.SearchResult{Source: panicCloser{strings.NewReader("syntax = \"proto3\"; message M {}")}}, nil
+		}
+		return protocompile.SearchResult{}, fmt.Errorf("not found")
+	})
+	c := protocompile.Compiler{Resolver: res}
+	_, err := c.Compile(context.Background(), "a.proto")
+	fmt.Println("err:", err)
+	time.Sleep(200 * time.Millisecond)
 }
